@@ -433,6 +433,8 @@ def fixed_corpus():
     # configured: the error callback has to see the span of the rejected match
     out.append(Def([L('regex', '[0-9]+', cb=25), L('regex', '[0-9]+\\.[0-9]+', cb=1), L('regex', '[a-z]+', cb=26), L('regex', '[a-z]+-=', cb=9), L('regex', '[A-Z]+y?', cb=12, value=True),
                     L('skip', ' +')], errcb=True, origin='fixed:errcb-fallback'))
+    # a plain skip that is a proper prefix of a longer pattern, the longer one cut short by the end of the input (round 28)
+    out.append(Def([L('skip', '[ \\t]+'), L('regex', '[a-z]+'), L('regex', '[ \\t]*\\r\\n'), L('regex', ' *;;')], origin='fixed:skip-prefix-eoi'))
     # the same pattern text with and without ignore(case) in one definition (round 28: a cache of parsed patterns keyed without the flag)
     out.append(Def([L('regex', '[a-z]+', prio=5), L('regex', '[a-z]+', prio=1, ignore_case=True), L('regex', 'end;'), L('token', 'end;', ignore_case=True, prio=9), L('skip', ' +')],
                    origin='fixed:same-text-case'))
